@@ -244,6 +244,7 @@ func run(ctx context.Context, f ComputeFunc) (*computation, error) {
 		// caller
 		node: node{},
 	}
+	vh("comp.new", &c.node)
 
 	childCtx := context.WithValue(ctx, computationKey{}, c)
 
@@ -274,6 +275,7 @@ func Cache(ctx context.Context, key interface{}, f ComputeFunc) (interface{}, er
 	defer cache.locker.Unlock(key)
 
 	if child := cache.get(key); child != nil {
+		vh("cache.hit", key, &child.node)
 		child.node.addOut(&computation.node)
 		return child.value, nil
 	}
@@ -283,6 +285,7 @@ func Cache(ctx context.Context, key interface{}, f ComputeFunc) (interface{}, er
 		return nil, err
 	}
 	cache.set(key, child)
+	vh("cache.set", key, &child.node)
 
 	child.node.addOut(&computation.node)
 	return child.value, nil
@@ -365,6 +368,7 @@ func (r *Rerunner) run() {
 	}
 	t.Stop()
 	if r.ctx.Err() != nil {
+		vh("run.ctxdone", r)
 		return
 	}
 
@@ -377,6 +381,7 @@ func (r *Rerunner) run() {
 
 	r.mu.Lock()
 	defer r.mu.Unlock()
+	vh("run.locked", r, r.stop)
 
 	// Bail out if the computation has been stopped.
 	if r.stop {
@@ -388,6 +393,7 @@ func (r *Rerunner) run() {
 		time.Sleep(WriteThenReadDelay)
 	}
 	r.cache.cleanInvalidated()
+	vh("run.cleaned", r)
 
 	// Cancel the context passed to "run". Canceling the context ensures that
 	// libraries let go of the context when they might otherwise hold onto it long
@@ -398,6 +404,7 @@ func (r *Rerunner) run() {
 	ctx = context.WithValue(ctx, dependencySetKey{}, &dependencySet{})
 
 	currentComputation, err := run(ctx, r.f)
+	vh("run.done", r, err)
 	r.lastRun = time.Now()
 	if err != nil {
 		if err != RetrySentinelError {
@@ -441,9 +448,11 @@ func (r *Rerunner) run() {
 func (r *Rerunner) Stop() {
 	// Call cancelCtx before acquiring the lock as the lock might be held for a long time during a running computation.
 	r.cancelCtx()
+	vh("stop.cancelled", r)
 
 	r.mu.Lock()
 	r.stop = true
+	vh("stop.locked", r)
 	if r.computation != nil {
 		go r.computation.node.release()
 		r.computation = nil
